@@ -2,6 +2,7 @@ package main
 
 import (
 	"fmt"
+	"sort"
 	"go/constant"
 	"go/token"
 	"go/types"
@@ -108,6 +109,7 @@ type Interp struct {
 	inInit   bool
 	unwindDefault int
 	opt         *PathOpts
+	enumQueries int
 	curModel    Model
 	pcSet       map[int]bool
 	conc        *concState
@@ -135,11 +137,165 @@ func (ip *Interp) goPanic(reason string) {
 
 // ---------- path condition & decisions ----------
 
-// query checks pc ∧ extra (extra may be nil) as one fresh problem. On sat the
-// model is returned (values of every variable in the query).
-func (ip *Interp) query(extra *Term) (string, Model) {
+// sliceFor returns the path-condition conjuncts that (transitively) share variables with extra.
+// Because the rest of the path condition is satisfied by the path's current model and shares no
+// variable with the slice, pc ∧ extra is satisfiable iff slice ∧ extra is.
+func (ip *Interp) sliceFor(extra *Term) ([]*Term, map[int]*Term) {
+	vars := map[int]*Term{}
+	for _, v := range ip.tb.VarsOf(extra) {
+		vars[v.id] = v
+	}
+	used := make([]bool, len(ip.pc))
+	var out []*Term
+	changed := true
+	for changed {
+		changed = false
+		for i, c := range ip.pc {
+			if used[i] {
+				continue
+			}
+			cv := ip.tb.VarsOf(c)
+			hit := false
+			for _, v := range cv {
+				if vars[v.id] != nil {
+					hit = true
+					break
+				}
+			}
+			if hit {
+				used[i] = true
+				out = append(out, c)
+				for _, v := range cv {
+					if vars[v.id] == nil {
+						vars[v.id] = v
+						changed = true
+					}
+				}
+			}
+		}
+	}
+	return out, vars
+}
+
+// enumerate decides slice ∧ extra by exhaustive evaluation when every variable has a small known domain.
+// It is used for branch-feasibility pruning only; assertion verdicts always go to the SMT solver.
+func (ip *Interp) enumerate(cons []*Term, vars map[int]*Term) (string, Model, bool) {
+	type dv struct {
+		v      *Term
+		lo, hi int64
+	}
+	var ds []dv
+	for _, v := range vars {
+		d, ok := ip.tb.dom[v.name]
+		if !ok || d[1] < d[0] {
+			return "", nil, false
+		}
+		ds = append(ds, dv{v, d[0], d[1]})
+	}
+	if len(ds) > 24 {
+		return "", nil, false
+	}
+	sort.Slice(ds, func(i, j int) bool { return ds[i].v.id < ds[j].v.id })
+	pos := map[int]int{}
+	for i, d := range ds {
+		pos[d.v.id] = i
+	}
+	// a constraint is checked as soon as its last variable (in the order) is assigned
+	at := make([][]*Term, len(ds)+1)
+	for _, c := range cons {
+		last := -1
+		for _, v := range ip.tb.VarsOf(c) {
+			if p := pos[v.id]; p > last {
+				last = p
+			}
+		}
+		at[last+1] = append(at[last+1], c)
+	}
+	m := Model{}
+	budget := 300000
+	bad := false
+	check := func(cs []*Term) bool {
+		for _, c := range cs {
+			e := &evaluator{m: m, cache: map[int]mval{}, ok: true}
+			v := e.eval(c)
+			if !e.ok {
+				bad = true
+				return false
+			}
+			if v.bv == 0 {
+				return false
+			}
+		}
+		return true
+	}
+	if !check(at[0]) {
+		if bad {
+			return "", nil, false
+		}
+		return "unsat", nil, true
+	}
+	var rec func(k int) bool
+	rec = func(k int) bool {
+		if k == len(ds) {
+			return true
+		}
+		d := ds[k]
+		for x := d.lo; x <= d.hi; x++ {
+			budget--
+			if budget < 0 || bad {
+				return false
+			}
+			m[d.v.name] = mval{bv: uint64(x) & mask(maxInt(d.v.sort.W, 1))}
+			if check(at[k+1]) && rec(k+1) {
+				return true
+			}
+		}
+		delete(m, d.v.name)
+		return false
+	}
+	found := rec(0)
+	if bad || budget < 0 {
+		return "", nil, false
+	}
+	if found {
+		out := Model{}
+		for k, v := range m {
+			out[k] = v
+		}
+		return "sat", out, true
+	}
+	return "unsat", nil, true
+}
+
+func maxInt(a, b int) int {
+	if a > b {
+		return a
+	}
+	return b
+}
+
+// query checks pc ∧ extra (extra may be nil). verdict=true marks an assertion check, which is always
+// decided by the SMT solver; feasibility queries may be decided by finite-domain enumeration.
+// On sat a model of the WHOLE path condition (and extra) is returned.
+func (ip *Interp) query(extra *Term, verdict ...bool) (string, Model) {
+	isVerdict := len(verdict) > 0 && verdict[0]
 	as := ip.pc
-	if extra != nil {
+	var sliced bool
+	if extra != nil && ip.curModel != nil && !ip.cfg.NoSlice {
+		sl, vars := ip.sliceFor(extra)
+		cons := append(append([]*Term{}, sl...), extra)
+		if !isVerdict {
+			if r, m, ok := ip.enumerate(cons, vars); ok {
+				ip.enumQueries++
+				if r == "sat" {
+					return r, ip.mergeModel(m)
+				}
+				return r, nil
+			}
+		}
+		as = cons
+		sliced = true
+	} else if extra != nil {
 		as = append(append([]*Term{}, ip.pc...), extra)
 	}
 	ip.solver.Load(as)
@@ -175,7 +331,22 @@ func (ip *Interp) query(extra *Term) (string, Model) {
 			m[v.name] = mval{f: f}
 		}
 	}
+	if sliced {
+		return r, ip.mergeModel(m)
+	}
 	return r, m
+}
+
+// mergeModel overlays the values of a slice model on the path's current model.
+func (ip *Interp) mergeModel(m Model) Model {
+	out := Model{}
+	for k, v := range ip.curModel {
+		out[k] = v
+	}
+	for k, v := range m {
+		out[k] = v
+	}
+	return out
 }
 
 func (ip *Interp) addPC(t *Term) {
@@ -414,7 +585,7 @@ func (ip *Interp) assert(c *Term, label string) {
 		ip.addPC(c)
 		return
 	}
-	r, m := ip.query(nc)
+	r, m := ip.query(nc, true)
 	switch r {
 	case "unsat":
 		ip.res.Asserts[label]++
